@@ -119,7 +119,14 @@ def lex_multichar_comments(
             )
 
     if ("/*", "*/") in comments:
-        if char == "*":
+        if preserve["state"] == Preserve.COMMENT:
+            # Comments do not nest: inside a comment only its end
+            # delimiter is significant, everything else is comment text.
+            if char == "*" and next_char == "/":
+                return lexeme + "*/", dict(state=Preserve.FALSE, end=None)
+            else:
+                return lexeme + char, preserve
+        elif char == "*":
             if prev_char == "/":
                 return lexeme + "/*", dict(state=Preserve.COMMENT, end="*/")
             elif next_char == "/":
